@@ -53,3 +53,7 @@ add("C10", "exploration", "bounded exhaustive enumeration of dictionaries (<=3/4
     "Every dictionary with <= 3 (thorough 4) entries over a universe of keys/value ids/kinds/boundary lengths, every length vector over an 8-symbol alphabet up to 4 (5) entries under one and alternating keys, a directed family that makes blocks close at exactly 112..120 bytes after every prefix, oversize entries in every position, and caller-supplied blocks: the blob is decoded by an independent decoder and compared with the reference operation list, block sizes and component tags.",
     "The TLV grammar is inferred from the encoder and the statement; a value list may be closed by block end.",
     "E1", "DESIGN.md 4/C10")
+add("C12", "exploration", "complete enumeration of every numeric field range plus bounded exhaustive enumeration of names, near-miss texts and naming-value subsets",
+    "Every value of each numeric field (customer 0..99999, project/device 0..9999, version 0..99) is printed, parsed and re-printed with the other fields on 3 tuples; 12 adversarial names x the full boundary product; every single-character deletion/substitution of 6 canonical texts and all strings of length <= 4 over an 8-symbol alphabet; all 2^7 subsets of the naming values x byte widths x names for project and device settings, against a reference model.",
+    "Texts with a lenient reading (trailing garbage) may be accepted or rejected; the reference semantics of the naming scheme are taken from the statement and the code's documented behaviour.",
+    "E1", "DESIGN.md 4/C12")
